@@ -79,6 +79,9 @@ func main() {
 		repl[filepath.Join(*repo, "zz_verif_pools.go")] = filepath.Join(*harness, "inject/zz_verif_pools.go")
 	}
 	repl[filepath.Join(*repo, "zz_verif_export.go")] = filepath.Join(*harness, "inject/zz_verif_export.go")
+	if *realsync {
+		repl[filepath.Join(*repo, "zz_verif_pools_real.go")] = filepath.Join(*harness, "inject/zz_verif_pools_real.go")
+	}
 	b, err := json.MarshalIndent(map[string]interface{}{"Replace": repl}, "", " ")
 	die(err)
 	name := "overlay.json"
